@@ -262,11 +262,13 @@ func represent(r *rand.Rand, v interface{}, level int) (interface{}, string) {
 		return &f, "*float64"
 	case reflect.String:
 		s := rv.String()
-		switch r.Intn(3) {
+		switch r.Intn(4) {
 		case 0:
 			return s, "string"
 		case 1:
 			return Mood(s), "named-string"
+		case 2:
+			return []byte(s), "bytes-for-string"
 		default:
 			return &s, "*string"
 		}
@@ -275,11 +277,17 @@ func represent(r *rand.Rand, v interface{}, level int) (interface{}, string) {
 		return &b, "*bool"
 	case reflect.Struct:
 		if t, ok := v.(time.Time); ok {
-			if r.Intn(2) == 0 {
+			switch r.Intn(3) {
+			case 0:
 				return &t, "*time"
+			case 1:
+				return t.In(otherZone), "time-other-zone"
 			}
 			return t, "own"
 		}
+	}
+	if b, ok := v.([]byte); ok && b != nil && r.Intn(2) == 0 {
+		return string(b), "string-for-bytes"
 	}
 	return v, "own"
 }
